@@ -62,6 +62,9 @@ def work(args):
             ops, meta = [], []
             strings = set()
             for module, tag, ep in epwork.endpoints_of(data, config):
+                if epwork.non_identifier_params(ep):
+                    out["skipped"].append((ep.name, "raw_fallback (C09 finding): module does not compile"))
+                    continue
                 try:
                     cep = epwork.cendpoint(ab, ep)
                 except Exception as e:
@@ -306,7 +309,8 @@ def run(run, tier, replay=None):
         for z in (a, b):
             if "exc" in z:
                 z["exc"] = {k: v for k, v in z["exc"].items() if k != "tb"}
-        if key(a) != key(b):
+        request_side = any("exc" in z and not z.get("requests") for z in (rs, ra))
+        if not request_side and key(a) != key(b):
             run.violation("oracle", {"label": results[di]["label"], "doc": results[di]["doc"], "op": c["op"], "status": c["status"], "sync": rs, "asyncio": ra,
                                      "note": "blocking and asyncio variants decoded the same response differently"})
     run.extra["variant_results_checked_against_document"] = n
